@@ -800,21 +800,21 @@ class Bag:
         n = self.per_key.get(key, 0)
         self.per_key[key] = n + 1
         kept = self._kept.setdefault(key, [])
-        item = (len(what), self._seq, what, body, data or {})
+        rank = (len(what), self._seq)
         self._seq += 1
-        if len(kept) < self.cap:
-            kept.append(item)
-            return
-        worst = max(range(len(kept)), key=lambda i: kept[i][:2])
-        if item[:2] < kept[worst][:2]:
-            kept[worst] = item
+        if len(kept) >= self.cap:
+            worst = max(range(len(kept)), key=lambda i: kept[i][:2])
+            if rank >= kept[worst][:2]:
+                return
+            del kept[worst]
+        if callable(body):
+            body = body()           # materialised now: the callable may close over variables that change later
+        kept.append((rank[0], rank[1], what, body, data or {}))
 
     def _materialise(self):
         out = []
         for key in sorted(self._kept, key=lambda k: min(i[1] for i in self._kept[k])):
             for size, seq, what, body, data in sorted(self._kept[key], key=lambda i: i[:2]):
-                if callable(body):
-                    body = body()
                 out.append(Finding(key=key, what=what[:2000], script=script(body), data=data))
         return out
 
